@@ -288,7 +288,7 @@ def run(ctx):
                 check_value(ctx, pair, state, root, v, "zoo#%d" % i, brine)
                 if pair.net.runaway or ctx.enough(10):
                     break
-        for i in range(ctx.budget(6000, 400000)):
+        for i in range(ctx.budget(6000, 1600000)):
             if ctx.enough(10):
                 break
             v = gen.gen_plain(rng)
@@ -297,7 +297,7 @@ def run(ctx):
                 ctx.sample({"plain": repr(v)[:150]})
             if ctx.enough():
                 break
-        for i in range(ctx.budget(2000, 120000)):
+        for i in range(ctx.budget(2000, 500000)):
             if ctx.enough(10):
                 break
             v = gen.gen_nonplain(rng)
@@ -315,7 +315,7 @@ def run(ctx):
         ctx.violation("C03/runaway-exchange", "transferring one value caused more than 3000 transport writes (unbounded ping-pong between the peers)")
     if pair.server_exc is not None:
         ctx.violation("C03/server-died/%s" % type(pair.server_exc).__name__, "serving side died: %r" % (pair.server_exc,))
-    for i in range(ctx.budget(500, 40000)):
+    for i in range(ctx.budget(500, 160000)):
         if ctx.enough(10):
             break
         ops = identity_history(ctx, rng, i)
@@ -324,6 +324,6 @@ def run(ctx):
         if ctx.enough():
             break
     if not ctx.enough():
-        obtain_deliver(ctx, rng, ctx.budget(100, 8000))
+        obtain_deliver(ctx, rng, ctx.budget(100, 24000))
     if not ctx.counters["nonplain_sent"] or not ctx.counters["plain_sent"]:
         ctx.inconclusive("one of the two transfer modes was never observed")
